@@ -17,6 +17,7 @@ import Driver.Node
 import Driver.Cache
 import Driver.ReqResp
 import Driver.Emitter
+import Driver.GenStatus
 
 def main (args : List String) : IO UInt32 := do
   match args with
@@ -40,6 +41,7 @@ def main (args : List String) : IO UInt32 := do
   | ["C07NODE"] => Driver.Node.main; return 0
   | ["C20CACHE"] => Driver.Cache.main; return 0
   | ["EMITTER"] => Driver.Emitter.main; return 0
+  | ["C15STATUS"] => Driver.GenStatus.main; return 0
   | ["C17"] => Driver.ReqResp.main; return 0
   | ["C01"] => Driver.BFT.main; return 0
   | _ => IO.eprintln "usage: ldriver <property-id>"; return 2
